@@ -288,6 +288,9 @@ class ReadInterp(Interp):
                 # value known to be Some(..) (constructed locally)
                 hit = p["variant"] == "Some"
                 return Poly.const(1 if hit else 0), (lambda: self.bind_value(fr, p, scrut))
+        if p.get("k") == "Binding" and p.get("sub"):
+            ind, binder = self.match_ind(fr, scrut, p["sub"])
+            return ind, (lambda: (binder(), fr.env.__setitem__(p["var"]["id"], scrut)))
         if p.get("k") == "Const" or not isinstance(scrut, PathVal) and p.get("k") == "Variant":
             self.ncond += 1
             return Poly.atom(("cond", ("$c%d" % self.ncond,))), (lambda: None)
@@ -426,6 +429,26 @@ class ReadInterp(Interp):
         raise Unsupported("loop at %s" % loc(e))
 
     def e_For(self, fr, e):
+        """`for _ in 0..n { reads }`: n iterations of a body that reads a fixed number of bytes."""
+        it = unblock(e["iter"])
+        if it.get("k") == "Adt" and it.get("adt", "").endswith("ops::range::Range"):
+            fl = {f["name"]: f["e"] for f in it["fields"]}
+            lo = lit_value(fl.get("start"))
+            n = as_poly(self.eval(fr, fl["end"]), "range end") - (lo if isinstance(lo, int) else 0)
+            c0 = self.consumed
+            r0 = len(self.reads)
+            self.eval(fr, e["body"])
+            per = self.consumed - c0
+            rd = self.reads[r0:]
+            del self.reads[r0:]
+            k = per.const_value()
+            if k is None:
+                raise Unsupported("counted loop whose iterations read a variable number of bytes")
+            self.consumed = c0 + n * k
+            self.loops.append({"fn_loc": loc(e), "cond": "for _ in %s" % pp(it)[:40], "consumed": Poly.const(k), "decrease": Poly.const(k),
+                               "dist0": n, "reads": rd, "node": e})
+            self.reads.append(("loop", pp(it)[:40], rd))
+            return UNIT
         raise Unsupported("for loop in decoder at %s" % loc(e))
 
     def e_Match(self, fr, e):
@@ -457,6 +480,8 @@ class ReadInterp(Interp):
         if c.get("k") != "Binary" or c["op"] not in ("Gt", "Lt", "Ne"):
             raise Unsupported("loop condition %s" % pp(c)[:80])
         big, small = (c["l"], c["r"]) if c["op"] in ("Gt", "Ne") else (c["r"], c["l"])
+        if c["op"] == "Ne" and lit_value(small) != 0 and lit_value(big) == 0:
+            big, small = small, big
 
         def dist():
             return as_poly(self.eval(fr, big), "loop bound") - as_poly(self.eval(fr, small), "loop bound")
